@@ -173,8 +173,17 @@ func intrinsicTable() map[string]intrinsic {
 		return v
 	}
 	t[vsName("Choice")] = func(ex *Exec, fn *ssa.Function, a []Value) Value {
-		v := ex.input(ex.argStr(a[0]), 64)
+		name := ex.argStr(a[0])
 		n := a[1].(*smt.Term)
+		if _, exists := ex.inputSet[name]; !exists && n.IsConst() && ex.cfg.Inputs == nil && n.Val > 0 {
+			// a fresh input constrained only by its range: fork over the range without the solver
+			ex.noGuard("vs.Choice")
+			v := ex.input(name, 64)
+			k := ex.Choose(int(n.Val))
+			ex.assumeTerm(ex.ctx.Eq(v, ex.intConst(int64(k))))
+			return ex.intConst(int64(k))
+		}
+		v := ex.input(name, 64)
 		ex.assume(ex.ctx.ULT(v, n))
 		return ex.intConst(int64(ex.Concretize(v, 4096)))
 	}
